@@ -29,6 +29,8 @@ type verifInConn struct {
 	progress bool
 	expiries int
 	onRead   func()
+	mustArm  bool // reads must happen under an armed read deadline
+	unarmed  int
 }
 
 func verifNewBufr(conn net.Conn) *bufio.Reader { return bufio.NewReaderSize(conn, readBufSize) }
@@ -45,6 +47,9 @@ func (c *verifInConn) Read(p []byte) (int, error) {
 	c.rcalls++
 	if c.onRead != nil {
 		c.onRead()
+	}
+	if c.mustArm && !c.rArmed {
+		c.unarmed++
 	}
 	if c.closed {
 		return 0, net.ErrClosed
@@ -216,7 +221,10 @@ func verifH_C06_stream() {
 			verifAssert(big.Topic == string(p.topic), "C06: BigMessage topic differs from what the broker sent")
 			verifAssert(big.Size == len(p.payload), "C06: BigMessage size differs from the payload size")
 			if verifChoose("readall", 2) == 1 {
+				conn.mustArm = cfg.PauseTimeout != 0
 				data, rerr := big.ReadAll()
+				conn.mustArm = false
+				verifAssert(conn.unarmed == 0, "C13: BigMessage.ReadAll reads from the connection without a read deadline although PauseTimeout is set (a stalling broker blocks the read routine for ever)")
 				if rerr == nil {
 					verifAssert(verifBytesEq(data, p.payload), "C06: BigMessage content differs from what the broker sent")
 					verifReach("big-read")
